@@ -57,6 +57,9 @@ type step struct {
 	outMode string   // new fresh op0 op1 recycled acc zero
 	out     *rlwe.Ciphertext
 	outc    *cval // pool entry that is overwritten (nil for new/fresh)
+	tag     string // extra signature predicate of a dedicated family (e.g. rdeg=0)
+	asEl    bool   // op1 is handed over as *rlwe.Element (ct.El() / pt.El()) instead of the wrapper
+	dirty   bool   // the fresh receiver carries stale metadata that the operation documents to re-initialise
 }
 
 // expect is the documented outcome of a step.
@@ -98,6 +101,9 @@ func (p *prog) pred(s *step, x *expect) string {
 	if x != nil {
 		parts = append(parts, x.flags...)
 	}
+	if s.tag != "" {
+		parts = append(parts, s.tag)
+	}
 	return strings.Join(parts, ",")
 }
 
@@ -131,6 +137,15 @@ func (p *prog) desc(s *step, x *expect) string {
 		if x.err {
 			fl += ",err"
 		}
+	}
+	if s.asEl {
+		fl += ",el"
+	}
+	if s.dirty {
+		fl += ",dirty"
+	}
+	if s.tag != "" {
+		fl += "," + s.tag
 	}
 	return fmt.Sprintf("%s(%s;%s%s)", name, s.kind, s.outMode, fl)
 }
@@ -207,7 +222,7 @@ func (p *prog) freshCt(level int, scale uint64) *cval {
 func (e *env) freshBound() *big.Int {
 	E := e.errB
 	if e.cf.Enc == "pk" {
-		E = (int64(e.n)+1+e.s1)*e.errB + (1+e.s1)/2 + 2
+		E = (e.uL1+1+e.s1)*e.errB + (1+e.s1)/2 + 2
 	}
 	return mulB(e.tb, bI(E+2))
 }
@@ -563,7 +578,7 @@ func (p *prog) expect(s *step) *expect {
 		x.m = e.vMul(a.m, s.m1)
 		switch s.k {
 		case "ct":
-			if a.degree+d1 > 2 {
+			if a.degree+d1 > 2 || (relin && e.noRlk) {
 				x.err = true
 				return x
 			}
@@ -613,7 +628,7 @@ func (p *prog) expect(s *step) *expect {
 		x.m = e.vAdd(accM, e.vMul(a.m, s.m1))
 		switch s.k {
 		case "ct", "pt":
-			if a.degree+d1 > 2 || s.outMode == "op0" || s.outMode == "op1" {
+			if a.degree+d1 > 2 || s.outMode == "op0" || s.outMode == "op1" || (s.k == "ct" && relin && e.noRlk) {
 				x.err = true
 				return x
 			}
@@ -700,7 +715,7 @@ func (p *prog) expect(s *step) *expect {
 		}
 	case "Relinearize":
 		x.m = a.m
-		if a.degree != 2 {
+		if a.degree != 2 || e.noRlk {
 			x.err = true
 			return x
 		}
@@ -747,6 +762,20 @@ func (p *prog) freshOut(deg, lvl int) *rlwe.Ciphertext {
 		lvl = p.e.maxLvl
 	}
 	return bgv.NewCiphertext(p.e.params, deg, lvl)
+}
+
+// stale gives a fresh receiver the metadata of an unrelated earlier use (non-NTT, not batched, zero
+// dimensions): InitOutputBinaryOp / InitOutputUnaryOp document that the operation re-initialises
+// them. Only drawn by the extended configurations that ask for it.
+func (p *prog) stale(s *step) {
+	x := p.e.cf.X
+	if x == nil || !x.Dirty || s.out == nil || p.r.N(2) == 0 {
+		return
+	}
+	s.dirty = true
+	s.out.IsNTT = false
+	s.out.IsBatched = false
+	s.out.LogDimensions.Rows, s.out.LogDimensions.Cols = 0, 0
 }
 
 func (p *prog) propose() *step {
@@ -798,6 +827,7 @@ func (p *prog) propose() *step {
 		case v < 5:
 			s.outMode = "fresh"
 			s.out = p.freshOut(1+r.N(2), s.op0.level-r.N(2))
+			p.stale(s)
 		case v < 9:
 			s.outMode, s.out, s.outc = "op0", s.op0.ct, s.op0
 		default:
@@ -826,6 +856,7 @@ func (p *prog) propose() *step {
 			if r.N(12) == 0 {
 				s.out = p.freshOut(s.op0.degree, s.op0.level-2) // too small: documented error
 			}
+			p.stale(s)
 		default:
 			if o := p.other(s.op0); o != nil && len(p.pool) > 2 {
 				s.outMode, s.out, s.outc = "recycled", o.ct, o
@@ -858,6 +889,9 @@ func (p *prog) propose() *step {
 	default:
 		s.k = "vector"
 		s.op1, s.kind, s.m1 = p.vector()
+	}
+	if e.cf.X != nil && e.cf.X.ElOp && (s.k == "ct" || s.k == "pt") && r.N(3) == 0 {
+		s.asEl = true
 	}
 	if s.method == "MulThenAdd" || s.method == "MulRelinThenAdd" {
 		switch v := r.N(20); {
@@ -908,6 +942,7 @@ func (p *prog) propose() *step {
 			deg = 2
 		}
 		s.out = p.freshOut(deg, lvl)
+		p.stale(s)
 	case v < 77:
 		s.outMode, s.out, s.outc = "op0", s.op0.ct, s.op0
 	case v < 87 && s.k == "ct":
@@ -927,6 +962,23 @@ func (p *prog) propose() *step {
 
 func (p *prog) call(s *step) (res *rlwe.Ciphertext, err error) {
 	ev := p.e.ev
+	if len(p.e.evs) > 0 {
+		i := p.r.N(len(p.e.evs))
+		ev = p.e.evs[i]
+		p.e.c.Count(fmt.Sprintf("interleaved_evaluator_%d", i), 1)
+	}
+	if s.asEl {
+		// the same operand as the bare *rlwe.Element the wrappers embed (what ct.El() / pt.El() return)
+		orig := s.op1
+		defer func() { s.op1 = orig }()
+		switch s.k {
+		case "ct":
+			s.op1 = s.c1.ct.El()
+		case "pt":
+			s.op1 = s.p1.pt.El()
+		}
+		p.e.c.Count("operand_as_element", 1)
+	}
 	op0 := s.op0.ct
 	switch s.method {
 	case "Add":
@@ -1056,6 +1108,12 @@ func (p *prog) verify(ct *rlwe.Ciphertext, x *expect, sigBase, pred string, info
 		return fail("wrong-scale", fmt.Sprintf("recorded scale %d, documented %d (t=%d)", sc, x.scale, e.t))
 	}
 	c.Eval(1)
+	// InitOutputBinaryOp / InitOutputUnaryOp document IsNTT <- NTT flag, IsBatched <- op0.IsBatched,
+	// LogDimensions <- max over the operands; every operand of a program is a batched NTT element of full dimensions
+	if !ct.IsNTT || !ct.IsBatched || ct.IsMontgomery || ct.LogDimensions != e.params.LogMaxDimensions() {
+		return fail("wrong-metadata", fmt.Sprintf("IsNTT=%v IsBatched=%v IsMontgomery=%v LogDimensions=%v, documented true/true/false/%v", ct.IsNTT, ct.IsBatched, ct.IsMontgomery, ct.LogDimensions, e.params.LogMaxDimensions()))
+	}
+	c.Eval(1)
 	V := e.noise(ct)
 	got := e.decode(ct)
 	if got == nil {
@@ -1114,6 +1172,23 @@ func (p *prog) exec(s *step, x *expect) {
 	for _, f := range x.tflags {
 		c.Count("shape_"+f, 1)
 	}
+	if !x.err {
+		if x.level == 0 {
+			c.Count("steps_result_level0", 1)
+		}
+		if x.level == e.maxLvl {
+			c.Count("steps_result_maxlevel", 1)
+		}
+	}
+	if s.dirty {
+		c.Count("receiver_stale_metadata", 1)
+	}
+	if xo := e.cf.X; xo != nil && !x.err {
+		c.Count("x_"+xo.Variant+"_steps", 1)
+		if strings.Contains(s.method, "Relin") && (s.k == "ct" || s.method == "Relinearize") {
+			c.Count("x_"+xo.Variant+"_relinearisations", 1)
+		}
+	}
 	info := func() string {
 		return fmt.Sprintf("%s %s | %v | program so far: %s", d, p.operandInfo(s), e.cf, strings.Join(p.text, " ; "))
 	}
@@ -1143,9 +1218,14 @@ func (p *prog) exec(s *step, x *expect) {
 		// the receiver of a refused call must still be usable: re-check it silently
 		if s.outc != nil {
 			got := e.decode(s.outc.ct)
-			if got == nil || !equalU(got, s.outc.m) || s.outc.ct.Level() != s.outc.level || s.outc.ct.Degree() != s.outc.degree {
+			sc, scOK := e.scaleOf(s.outc.ct)
+			if got == nil || !equalU(got, s.outc.m) || s.outc.ct.Level() != s.outc.level || s.outc.ct.Degree() != s.outc.degree || !scOK || sc != s.outc.scale {
+				// a refusal that comes late (missing key) may leave anything in the receiver, e.g. a rescaled
+				// accumulator with another recorded scale that still decodes: the model forgets this value
 				c.Count("receiver_changed_by_refused_call", 1)
 				p.remove(s.outc)
+			} else if V := e.noise(s.outc.ct); V.Cmp(s.outc.V) > 0 {
+				s.outc.V = V
 			}
 		}
 		return
@@ -1201,9 +1281,17 @@ func (p *prog) execDropLevel(s *step) bool {
 	if a.level == 0 {
 		return false
 	}
+	ev := e.ev
+	if len(e.evs) > 0 {
+		ev = e.evs[p.r.N(len(e.evs))]
+	}
 	k := 1 + p.r.N(a.level)
 	if p.r.N(3) > 0 {
 		k = 1
+	}
+	if e.cf.X != nil && p.r.N(8) == 0 {
+		k = 0 // documented as "reduces the level by levels": a nop
+		e.c.Count("droplevel_zero", 1)
 	}
 	nl := a.level - k
 	if !e.budget(a.V, nl) {
@@ -1220,7 +1308,7 @@ func (p *prog) execDropLevel(s *step) bool {
 		return fmt.Sprintf("%s op0{lvl=%d deg=%d scale=%d noise=2^%.1f} | %v | program so far: %s", d, a.level, a.degree, a.scale, log2(a.V), e.cf, strings.Join(p.text, " ; "))
 	}
 	wit := map[string]any{"cfg": e.cf, "program": p.text}
-	panicked, pv := eng.Panics(func() { e.ev.DropLevel(a.ct, k) })
+	panicked, pv := eng.Panics(func() { ev.DropLevel(a.ct, k) })
 	e.c.Eval(1)
 	if panicked {
 		e.c.Violate("C05|Evaluator.DropLevel|panic|k=none,out=op0", fmt.Sprintf("panic: %v :: %s", pv, info()), wit)
@@ -1252,6 +1340,10 @@ func (p *prog) execMatch(s *step) bool {
 		return false
 	}
 	neq := a.scale != b.scale
+	ev := e.ev
+	if len(e.evs) > 0 {
+		ev = e.evs[p.r.N(len(e.evs))]
+	}
 	d := "MatchScalesAndLevel(ct;both"
 	if neq {
 		d += ",neq"
@@ -1273,7 +1365,7 @@ func (p *prog) execMatch(s *step) bool {
 	if neq {
 		pred += ",sc=neq"
 	}
-	panicked, pv := eng.Panics(func() { e.ev.MatchScalesAndLevel(a.ct, b.ct) })
+	panicked, pv := eng.Panics(func() { ev.MatchScalesAndLevel(a.ct, b.ct) })
 	e.c.Eval(1)
 	if panicked {
 		e.c.Violate("C05|Evaluator.MatchScalesAndLevel|panic|"+pred, fmt.Sprintf("panic: %v :: %s", pv, info()), wit)
@@ -1397,4 +1489,7 @@ func runPrograms(c *eng.Ctx, cf cfg) {
 	}
 	c.Count("cases_mode_"+cf.Mode, 1)
 	c.Count("cases_eval_"+cf.Eval, 1)
+	if cf.X != nil {
+		c.Count("cases_x_"+cf.X.Variant, 1)
+	}
 }
